@@ -229,4 +229,43 @@ theorem filter_range_sorted (l : List Txn) (hs : l.Pairwise (fun a b => a.tid < 
         have := h1 x hx
         simp; omega
 
+/-! ### appending transactions (used by the snapshot properties) -/
+
+theorem revs_append (h1 h2 : History) (oid : Nat) : revs (h1 ++ h2) oid = revs h1 oid ++ revs h2 oid := by
+  unfold revs; exact List.filterMap_append
+
+theorem revs_tid_mem {h : History} {oid : Nat} {r : Rev} (hr : r ∈ revs h oid) : ∃ t ∈ h, r.tid = t.tid := by
+  unfold revs at hr
+  obtain ⟨t, ht, hr⟩ := List.mem_filterMap.1 hr
+  cases hc : t.recOf oid with
+  | none => simp [hc] at hr
+  | some rec =>
+    simp only [hc, Option.map_some, Option.some.injEq] at hr
+    exact ⟨t, ht, by rw [← hr]⟩
+
+/-- `stateAt_mono`: appending transactions with tid ≥ b never changes the snapshot "before b" -/
+theorem stateAt_mono (h1 h2 : History) (b oid : Nat) (hb : ∀ t ∈ h2, b ≤ t.tid) :
+    stateAt (h1 ++ h2) b oid = stateAt h1 b oid := by
+  have hf : (revs h2 oid).filter (fun r => decide (r.tid < b)) = [] := by
+    rw [List.filter_eq_nil_iff]
+    intro r hr
+    obtain ⟨t, ht, e⟩ := revs_tid_mem hr
+    have := hb t ht
+    simp; omega
+  unfold stateAt History.loadBefore
+  simp only [revs_append, List.filter_append, hf, List.append_nil]
+  cases h1r : revs h1 oid with
+  | nil =>
+    simp only [List.nil_append, List.filter_nil, List.getLast?_nil, List.isEmpty_nil, if_true]
+    by_cases he : (revs h2 oid).isEmpty = true
+    · rw [if_pos he]
+    · rw [if_neg he]
+  | cons x l =>
+    simp only [List.cons_append, List.isEmpty_cons, Bool.false_eq_true, if_false]
+    cases ((x :: l).filter fun r => decide (r.tid < b)).getLast? with
+    | none => rfl
+    | some r =>
+      simp only
+      cases r.record.data <;> rfl
+
 end Proofs.FileStoreHistory
